@@ -51,7 +51,7 @@ func (c13) Runs(t Tier) int {
 }
 func (c13) RecordWidths() map[string]int { return map[string]int{"corrupt": 4} }
 func (c13) RequiredProbes() []string {
-	return []string{"bitflip", "truncate", "extend", "misdirected", "type-rewrite", "fanout-rewrite", "fanout-mismatch-parent-child", "bitfield-longer", "bitfield-shorter", "hashtype-rewrite", "filesize-rewrite", "blocksizes-rewrite", "name-absent", "name-short", "name-duplicate", "tsize-absent", "corrupt-at-kth-read", "link-retarget", "deep-shard-chain", "diamond-shard-chain", "decoder-bytes", "op-error", "op-ok-despite-corruption"}
+	return []string{"bitflip", "truncate", "extend", "misdirected", "type-rewrite", "fanout-rewrite", "fanout-mismatch-parent-child", "bitfield-longer", "bitfield-shorter", "hashtype-rewrite", "filesize-rewrite", "blocksizes-rewrite", "name-absent", "name-short", "name-duplicate", "tsize-absent", "corrupt-at-kth-read", "link-retarget", "deep-shard-chain", "mixed-fanout-chain", "diamond-shard-chain", "decoder-bytes", "op-error", "op-ok-despite-corruption"}
 }
 
 type c13Scenario struct {
@@ -201,7 +201,7 @@ func corruptBlock(res *Result, st *store.Store, info map[string]*blockInfo, orde
 		if u == nil {
 			return nil, ""
 		}
-		u.Type = []uint64{0, 1, 2, 3, 4, 5, 6, 7, 255, 1 << 40}[a%10]
+		u.Type = []uint64{0, 1, 2, 3, 4, 5, 6, 7, 255, 1 << 40, 1 << 63, 1<<64 - 1}[a%12]
 		u.HasType = b%7 != 0
 		res.probe("type-rewrite")
 		desc = fmt.Sprintf("type=%d present=%v", u.Type, u.HasType)
@@ -517,9 +517,26 @@ func (c13) Run(ts *tape.Set, tier Tier) *Result {
 			depth = 1
 		}
 		name := fmt.Sprintf("deep%d", shape.Intn(1000))
-		root = gen.WriteDeepShardChain(st, fan, depth, name)
+		mixedSeed := shape.Raw()
+		if mixedSeed%3 == 0 {
+			// a short chain whose levels have different fanouts and whose entry
+			// has a very short name
+			fans := []int{8, 16, 256, 1024}
+			depth = 2 + int(mixedSeed>>8)%3
+			name = []string{"a", "b7", "é", "xyz"}[int(mixedSeed>>16)%4]
+			fr := tape.NewSplitMix(mixedSeed)
+			lv := make([]int, depth)
+			for i := range lv {
+				lv[i] = fans[int(fr.Next()%4)]
+			}
+			root = gen.WriteShardChain(st, func(l int) int { return lv[l] }, depth, name)
+			sc.Kind, sc.Spec = "dir", fmt.Sprintf("hand-made mixed-fanout shard chain fanouts=%v entry name %q", lv, name)
+			res.probe("mixed-fanout-chain")
+		} else {
+			root = gen.WriteDeepShardChain(st, fan, depth, name)
+			sc.Kind, sc.Spec = "dir", fmt.Sprintf("hand-made shard chain fanout=%d depth=%d (hash addresses %d levels)", fan, depth, limit)
+		}
 		names = []string{name}
-		sc.Kind, sc.Spec = "dir", fmt.Sprintf("hand-made shard chain fanout=%d depth=%d (hash addresses %d levels)", fan, depth, limit)
 		res.probe("deep-shard-chain")
 	} else if isDir {
 		spec := gen.DrawDirSpec(shape, gen.DirOpts{MaxN: 60})
@@ -624,6 +641,7 @@ func (c13) Run(ts *tape.Set, tier Tier) *Result {
 		}
 	}
 
+	nodeReifier := ct.Raw()%3 == 0
 	delivered := 0
 	seenReq := map[string]int{}
 	install := func() {
@@ -646,7 +664,7 @@ func (c13) Run(ts *tape.Set, tier Tier) *Result {
 		// every library call may legitimately walk the whole (corrupted) DAG
 		loadBudget := calls*(16*occ) + 64
 		install()
-		w := world.New(st, true)
+		w := newWorld(st, true, nodeReifier)
 		var outcome string
 		var err error
 		panicked, site, pmsg := guard(func() { outcome, err = f(w) })
@@ -889,6 +907,13 @@ func (c13) Run(ts *tape.Set, tier Tier) *Result {
 		raw[i] = byte(rr.Next())
 	}
 	payloads = append(payloads, raw)
+	{
+		ext := []uint64{0, 1, 5, 1 << 31, 1<<63 - 1, 1 << 63, 1<<64 - 1}
+		u := &gen.RawUnixFS{Type: ext[rr.Next()%7], HasType: true, FileSize: ext[rr.Next()%7], HasFileSize: rr.Next()%2 == 0,
+			HashType: ext[rr.Next()%7], HasHashType: rr.Next()%2 == 0, Fanout: ext[rr.Next()%7], HasFanout: rr.Next()%2 == 0,
+			Mode: ext[rr.Next()%7], HasMode: rr.Next()%2 == 0, BlockSizes: []uint64{ext[rr.Next()%7], ext[rr.Next()%7]}, PackSizes: rr.Next()%2 == 0}
+		payloads = append(payloads, u.Encode())
+	}
 	for _, p := range payloads {
 		p := p
 		for _, dec := range []string{"DecodeUnixFSData", "DecodeUnixTime", "DecodeUnixFSMetadata"} {
@@ -901,6 +926,9 @@ func (c13) Run(ts *tape.Set, tier Tier) *Result {
 						// a decoded message must be usable
 						_ = data.EncodeUnixFSData(ud)
 						_ = ud.Permissions()
+						_ = ud.FieldDataType().Int()
+						_ = ud.FieldFileSize().Exists()
+						_ = ud.FieldBlockSizes().Length()
 					}
 				case "DecodeUnixTime":
 					_, _ = data.DecodeUnixTime(p)
